@@ -28,7 +28,7 @@ Section ListLoops.
 
   Definition addbody (_ : Z) (v0 : string) (u : list string) : ctl (list string) (list string) :=
     let v := norm v0 in
-    if (negb (contains u v) && negb (v =? "")%string) then Cont (u ++ [v]) else Cont u.
+    Cont (if (negb (contains u v) && negb (v =? "")%string) then u ++ [v] else u).
   Lemma addloop : forall (ps : list string) (i : Z) (u : list string),
     go_range addbody i ps u = inl (fold_left (spec_add1 norm) ps u).
   Proof.
